@@ -5,6 +5,7 @@ mod compute_suite;
 mod graph_suite;
 mod hash_suite;
 mod refsem;
+mod vmops_suite;
 
 use std::sync::atomic::{AtomicUsize, Ordering};
 
@@ -14,6 +15,8 @@ pub struct Ctx {
     pub only: Option<String>,
     pub cases: AtomicUsize,
     pub failures: AtomicUsize,
+    /// failures printed so far per group (first two segments of the case id): the first two of every group are printed, at most 60 lines
+    pub printed: std::sync::Mutex<std::collections::BTreeMap<String, usize>>,
 }
 
 impl Ctx {
@@ -29,8 +32,13 @@ impl Ctx {
     }
     pub fn fail(&self, id: &str, clause: &str, detail: String) {
         self.cases.fetch_add(1, Ordering::Relaxed);
-        let n = self.failures.fetch_add(1, Ordering::Relaxed);
-        if n < 12 {
+        self.failures.fetch_add(1, Ordering::Relaxed);
+        let group: String = id.split('/').take(2).collect::<Vec<_>>().join("/");
+        let mut p = self.printed.lock().unwrap();
+        let total: usize = p.values().sum();
+        let g = p.entry(group).or_insert(0);
+        if *g < 2 && total < 60 {
+            *g += 1;
             println!(
                 "{{\"suite\":\"{}\",\"case\":\"{}\",\"clause\":\"{}\",\"detail\":\"{}\"}}",
                 self.suite,
@@ -49,7 +57,7 @@ pub fn esc(s: &str) -> String {
 fn main() {
     let args: Vec<String> = std::env::args().collect();
     if args.len() < 2 {
-        eprintln!("usage: xrun <hash|graph|compute|bytecode> [--tier quick|thorough] [--only <case>]");
+        eprintln!("usage: xrun <hash|graph|compute|bytecode|vmops> [--tier quick|thorough] [--only <case>]");
         std::process::exit(2);
     }
     let mut thorough = false;
@@ -90,6 +98,7 @@ fn main() {
         "graph" => "graph",
         "compute" => "compute",
         "bytecode" => "bytecode",
+        "vmops" => "vmops",
         _ => {
             eprintln!("unknown suite");
             std::process::exit(2);
@@ -97,13 +106,14 @@ fn main() {
     };
     // panics of the code under test are caught and reported per case; keep stderr quiet
     std::panic::set_hook(Box::new(|_| {}));
-    let ctx = Ctx { suite, thorough, only, cases: AtomicUsize::new(0), failures: AtomicUsize::new(0) };
+    let ctx = Ctx { suite, thorough, only, cases: AtomicUsize::new(0), failures: AtomicUsize::new(0), printed: Default::default() };
     // a panic inside the code under test is a failure of the case that was running, not of the driver
     let r = std::panic::catch_unwind(std::panic::AssertUnwindSafe(|| match suite {
         "hash" => hash_suite::run(&ctx),
         "graph" => graph_suite::run(&ctx),
         "compute" => compute_suite::run(&ctx),
         "bytecode" => bytecode_suite::run(&ctx),
+        "vmops" => vmops_suite::run(&ctx),
         _ => unreachable!(),
     }));
     if r.is_err() {
